@@ -7,7 +7,7 @@
    models where they exist), and what was observed afterwards. *)
 From Coq Require Import String Ascii List Bool NArith.
 From Shoot Require Import Base.Str Model.Transfer Model.GoWf Model.Enum.
-From Shoot Require Model.Ctor Model.CtorSpec Model.CtorOpt Model.MapperSpec Corr.MapperCorr Model.RestSpec.
+From Shoot Require Model.Ctor Model.CtorSpec Model.CtorOpt Model.CtorGetSet Model.CtorJson Model.MapperSpec Corr.MapperCorr Model.RestSpec.
 Import ListNotations.
 Local Open Scope string_scope.
 Local Open Scope list_scope.
@@ -74,8 +74,10 @@ Definition data_in_guard (d : gdata) : bool :=
   | GNewSpec p fl fuel T =>
       match ctor_struct p T with
       | Some sd =>
-          if Ctor.fl_opt fl then CtorOpt.c13_guard (Ctor.fl_short fl) p fuel sd
-          else CtorSpec.c02_guard p fuel sd && (ctor_plainish fl || CtorOpt.not_generic sd)
+          (if Ctor.fl_opt fl then CtorOpt.c13_guard (Ctor.fl_short fl) p fuel sd
+           else CtorSpec.c02_guard p fuel sd && (ctor_plainish fl || CtorOpt.not_generic sd))
+          && (if Ctor.fl_json fl then CtorJson.c11_guard p fl fuel sd
+              else if Ctor.fl_getset fl then CtorGetSet.c03_guard p fl fuel sd else true)
       | None => false
       end
   | GMapSpec ps _ => MapperSpec.pair_guard (MapperCorr.ps_env ps) (MapperCorr.ps_fuel ps) (MapperCorr.ps_jobs ps)
